@@ -48,7 +48,7 @@ string error_handler (mapping m, int caught) {
   if (hscript & 1) hv = catch (hnoop ());
   if (hscript & 2) hv = catch (hboom ());
   if (hscript & 4) hv = catch (hthrow ());
-  if (hscript & 8) hv = map (({ 1 }), (: hcb :));
+  if (hscript & 8) hv = map (({ 1, 2 }), (: hcb :));
   if (hscript & 16) hv = catch (hnest ());
   return "";
 }
